@@ -23,7 +23,7 @@ from .fam_fs import extract
 
 NAME = "det"
 
-DIMS = ["entropy", "rand", "set_order", "clock_pid", "buffers", "prehistory", "environ", "list_order", "schedule"]
+DIMS = ["entropy", "rand", "set_order", "clock_pid", "buffers", "prehistory", "environ", "list_order", "schedule", "stale_out"]
 BUILTIN_RESERVED = ["router", "system", "permit", "interface", "domain-search", "esp-seal", "snmp", "trunk", "neighbor"]
 
 
@@ -226,6 +226,12 @@ def _exec(plan, dims, salt=None, child=None):
             if it["kind"] == "run" and it.get("bad"):
                 disk["files"]["other/in/bad.cfg"] = b"bad \xff\n"
             pre.append(it)
+    if "stale_out" in dims:
+        # leftover state on disk: an earlier, unrelated run left longer files at the very same output paths
+        for f in plan["files"]:
+            disk["files"][W.mirror("in", "out", f["path"])] = b"! result of an earlier run with other options\n" * (len(f["lines"]) + 9)
+        if plan["dump"]:
+            disk["files"][plan["dump"]] = b"198.51.100.1\t203.0.113.1\n" * 40
     step = {"entry": plan["entry"], "opts": o, "in": "in", "out": "out", "dump": plan["dump"]}
     knobs = _knobs(plan, dims)
     if child is not None:
@@ -315,6 +321,10 @@ def check(plan):
     probes["set_seam_entered"] = int(h1.get("set_order_entries", 0) > 0) if "set_order_entries" in h1 else 0
     probes["prehistory_items"] = len(plan["pre"]) if "prehistory" in dims else 0
     v1, v2 = _view(h1), _view(h2)
+    if "stale_out" in dims:
+        # a file that failed before its output was opened leaves the older file alone: not this property's business
+        for k in [k for k in v2 if k not in v1 and v2[k].startswith((b"! result of an earlier run", b"198.51.100.1\t203.0.113.1"))]:
+            del v2[k]
     if v1 != v2:
         # attribute: one dimension at a time
         culprits = []
@@ -344,7 +354,7 @@ def check(plan):
         exercised = exercised or any(plan["opts"].get(k) and len(plan["opts"][k]) > 1 for k in ("words", "as", "reserved"))
     if "schedule" in dims:
         probes["sched_points"] = h1.get("sched_points", 0) + (h2.get("sched_points", 0) if isinstance(h2, dict) else 0)
-    if any(d in dims for d in ("rand", "clock_pid", "buffers", "environ")) or child is not None:
+    if any(d in dims for d in ("rand", "clock_pid", "buffers", "environ", "stale_out")) or child is not None:
         exercised = True
     return _res(plan, V, probes, steps, [W.public_hist(h1), {k: v for k, v in h2.items() if k in (
         "steps", "outcome", "logs", "trace", "handed", "faults", "snap")}], exercised)
